@@ -217,7 +217,7 @@ impl SubscribeProperties {
         let mut id = None;
         let mut user_properties = Vec::new();
 
-        let (properties_len_len, properties_len) = length(bytes.iter())?;
+        let (properties_len_len, properties_len) = length_in_frame(bytes.iter())?;
         bytes.advance(properties_len_len);
 
         if properties_len == 0 {
@@ -232,7 +232,7 @@ impl SubscribeProperties {
 
             match property(prop)? {
                 PropertyType::SubscriptionIdentifier => {
-                    let (id_len, sub_id) = length(bytes.iter())?;
+                    let (id_len, sub_id) = length_in_frame(bytes.iter())?;
                     // TODO: Validate 1 +. Tests are working either way
                     cursor += 1 + id_len;
                     bytes.advance(id_len);
